@@ -4,9 +4,9 @@ SEED=$1; PROP=$2; TIER=${3:-quick}
 WT=/tmp/seedrepo.$$
 cd /verif || exit 2
 git -C /repo worktree add -q --detach $WT HEAD || exit 2
-trap 'git -C /repo worktree remove --force '$WT'; git -C /verif checkout -- evidence/'$PROP'.json 2>/dev/null' EXIT
+trap 'git -C /repo worktree remove --force '$WT'; rm -rf /tmp/scratch-evidence.'$$ EXIT
 git -C $WT apply /verif/seeded/$SEED/patch.diff || { echo "patch does not apply"; exit 3; }
-VERIF_REPO=$WT ./check $PROP $TIER > /tmp/seedcheck.$SEED.$PROP.log 2>&1
+VERIF_EVIDENCE_DIR=/tmp/scratch-evidence.$$ VERIF_REPO=$WT ./check $PROP $TIER > /tmp/seedcheck.$SEED.$PROP.log 2>&1
 RC=$?
 grep -E "^VIOLATION|^KNOWN|^INCONCLUSIVE" /tmp/seedcheck.$SEED.$PROP.log | head -6 | cut -c1-200
 grep -E "signature:" /tmp/seedcheck.$SEED.$PROP.log | head -3 | cut -c1-200
